@@ -85,6 +85,9 @@ CASES = [('K', None, None, None), ('Q', None, None, None), (None, True, False, F
          (None, False, False, True), (None, False, True, False), (None, False, True, True)]
 
 
+RECORDS = []
+
+
 def board_path_classes(p):
     """(dmap, umap, n_event_sites): case vector (castling wing, e.p., promotion, capture) -> {board-primitive event sequence} of
     do_move / undo_move. Events carry their arguments in normal form for White and for Black as mover ("w;b"); the walk is by
@@ -129,6 +132,10 @@ def board_path_classes(p):
                     'captured_piece(moveinfo)': kd['ROOK'] if cap else kd['NO_PIECE_KIND']}
         dmap[v] = {both(do, dval, what)}
         umap[v] = {both(undo, uval, what)}
+        # what do_move writes into the undo record in this case (undo_move is walked under exactly these values)
+        for c in (0, 1):
+            rec = case_events(do, dval(c), {'side': c}, lambda nm_: nm_ == 'engine::create_moveinfo', what)
+            RECORDS.append((what, c, rec, kd['ROOK'] if cap else kd['NO_PIECE_KIND'], 1 if ep else 0))
     n_sites = len([1 for fn in (do, undo) for n, cfid, nm in fn.calls() if is_prim(nm)])
     return dmap, umap, n_sites
 
@@ -144,7 +151,21 @@ def check(ctx):
     cm = p.fn('engine::create_moveinfo')
 
     PIECES.update(p.enum('engine::Piece'))
+    del RECORDS[:]
     dmap, umap, n_ev = board_path_classes(p)
+    cmf = p.fn('engine::create_moveinfo')
+    pnames = [q['name'] for q in cmf.params]
+    if 'captured' not in pnames or 'enpassant' not in pnames:
+        raise AnalysisBroken('create_moveinfo: parameters captured/enpassant not found (%s)' % pnames)
+    ic, ie = pnames.index('captured'), pnames.index('enpassant')
+    for what, c, rec, want_c, want_e in RECORDS:
+        if want_e and len(rec) == 1 and len(rec[0]) == 1 + len(pnames) and rec[0][1 + ic] != '0' and rec[0][1 + ie] in ('1', 'true'):
+            raise AnalysisBroken('do_move records captured kind %s for an en-passant capture; undo_move is only modelled for the '
+                                 'record the reference tree writes (kind 0, flag set)' % rec[0][1 + ic])
+        ok = len(rec) == 1 and len(rec[0]) == 1 + len(pnames) and rec[0][1 + ic] == str(want_c) and rec[0][1 + ie] in (str(want_e), 'true' if want_e else 'false')
+        ctx.ob('C03.R1.record-content', '%s:%s' % (what, 'w' if c == 0 else 'b'), ok,
+               'in this case do_move records the captured kind (%d) and the e.p. flag (%d) that undo_move acts on (recorded: %s)'
+               % (want_c, want_e, rec), site=do.loc())
     ctx.floor('C03.R1.board-events', n_ev, 16, 'board primitive call sites in do/undo')
     ctx.info['do_path_classes'] = len(dmap)
     ctx.floor('C03.R1.path-classes', len(dmap), 7, 'do_move path classes')
